@@ -107,7 +107,7 @@ def search(ctx, broken, diffs):
 MANIFEST = {
     'technique': 'Lean 4 kernel evaluation of the complete exp/log tables + derived field laws; exhaustive model/impl correspondence',
     'text': ('Theorems in QRV/Props/C15.lean over a model of element.go whose tables are regenerated from /repo on every run: Mul = carry-less '
-             'product mod 0x11D for all 65,536 pairs (decide +kernel over the whole table), Exp = 2^k, Log/Exp inverse, Inv(a)*a = 1, and the field '
+             'product mod 0x11D for all 65,536 pairs (decide +kernel over the whole table), Exp = 2^k (and exactly which negative arguments panic: Exp_panics_iff), Log/Exp inverse, Inv(a)*a = 1, and the field '
              'axioms for all triples derived from those finite facts (no sampling). The hand-written model is tied to the Go code by an exhaustive '
              'differential run (all pairs / all elements), which is also the failing-input search. This is the right level because the domain is finite '
              'and the kernel can evaluate it completely.'),
